@@ -30,7 +30,7 @@ def cases(tier, seed):
     for tg in TARGETS:
         for mode in ("uniform", "budget"):
             yield f"C08|per-antenna|target={tg},{mode}", {"kind": "antenna", "target": tg, "mode": mode, "tier": tier}
-    for A in (0.5, 1.0, 2.5):
+    for A in (0.5, 1.0, 2.5, 0.01, 0.1, 0.3, 1.3, 37.0):      # dyadic and non-dyadic limits over the decades of the targets
         yield f"C08|peak|A={A}", {"kind": "peak", "A": A, "tier": tier}
     for lim in (1.5, 3.0, 6.0):
         for cplx in (False, True):
